@@ -14,7 +14,8 @@ NPROC = int(os.environ.get("VERIF_NPROC", "16"))
 
 
 class Job:
-    def __init__(self, name, func, kwargs=None, clause="", timeout_s=600, weight=1):
+    def __init__(self, name, func, kwargs=None, clause="", timeout_s=600, weight=1, optional=False):
+        self.optional = optional      # an inductive-step job that may be skipped on a structure mismatch (whole-run jobs decide the clause too)
         self.name = name
         self.func = func
         self.kwargs = kwargs or {}
@@ -50,7 +51,11 @@ def _child(job, conn):
         if not isinstance(res, dict) or "status" not in res:
             res = dict(status="inconclusive", why=f"job returned {type(res)}")
     except BaseException as ex:  # noqa
-        res = dict(status="inconclusive", why=f"{type(ex).__name__}: {ex}", traceback=traceback.format_exc()[-3000:])
+        from .core import StructureMismatch
+        if isinstance(ex, StructureMismatch) and job.optional:
+            res = dict(status="skipped", why=f"structure mismatch: {ex}")
+        else:
+            res = dict(status="inconclusive", why=f"{type(ex).__name__}: {ex}", traceback=traceback.format_exc()[-3000:])
     res.setdefault("clause", job.clause)
     res["job"] = job.name
     res["wall_s"] = round(time.time() - t0, 3)
@@ -144,6 +149,16 @@ def finish(prop, tier, results, t0, bounds, outside, assumptions, stubs, level="
                 viol.append(r)
         elif r["status"] == "inconclusive":
             inconc.append(r)
+    # optional step jobs that do not fit the current shape of the code: skipped, provided a held job decides the same clause
+    held_clauses = {r.get("clause") for r in results if r["status"] == "held"}
+    for r in results:
+        if r["status"] == "skipped":
+            if r.get("clause") in held_clauses:
+                print(f"SKIPPED property={prop} job={r.get('job')} why={str(r.get('why'))[:200]}")
+            else:
+                r["status"] = "inconclusive"
+                r["why"] = "skipped and no other job decides this clause: " + str(r.get("why"))
+                inconc.append(r)
     os.makedirs(os.path.join(ROOT, "replays"), exist_ok=True)
     for k, r in knownseen:
         print(f"KNOWN-FINDING: property={prop} {k.get('what', r.get('what'))}")
@@ -203,6 +218,7 @@ def finish(prop, tier, results, t0, bounds, outside, assumptions, stubs, level="
                        backend=r.get("backend")) for r in results],
             stubs=stubs,
             known_findings_seen=[k.get("id") or k.get("what") for k, _ in knownseen],
+            skipped_jobs=[dict(job=r.get("job"), why=r.get("why")) for r in results if r["status"] == "skipped"],
         ),
         assumptions=assumptions,
         wall_s=round(time.time() - t0, 2),
